@@ -344,8 +344,29 @@ impl AnnotatedLexer<'_> {
         self.get_any()?.as_string()
     }
 
+    /// What the end of the file looks like to a statement.
+    ///
+    /// Before its first token there simply is no further statement. Inside
+    /// one, the end of the file ends the line like a newline does, so that an
+    /// operand that is still missing is reported instead of the whole
+    /// statement vanishing without a word.
+    fn end_of_file(&self) -> Result<Token, LexError> {
+        if self.raw_token == RawToken::default() {
+            return Err(LexError::UnexpectedEOF);
+        }
+        let end = *self.raw_token.range().end();
+        Ok(Token::new(
+            TokenType::Newline,
+            String::new(),
+            Range::new(end, end),
+            self.raw_token.file(),
+        ))
+    }
+
     fn get_any(&mut self) -> Result<Token, LexError> {
-        let item = self.lexer.next().ok_or(LexError::UnexpectedEOF)?;
+        let Some(item) = self.lexer.next() else {
+            return self.end_of_file();
+        };
         if let Ok(ref item) = item {
             if self.raw_token == RawToken::default() {
                 self.raw_token = item.clone().into();
@@ -363,7 +384,7 @@ impl AnnotatedLexer<'_> {
     fn peek_any(&mut self) -> Result<Token, LexError> {
         match self.lexer.peek() {
             Some(item) => item.clone(),
-            None => Err(LexError::UnexpectedEOF),
+            None => self.end_of_file(),
         }
     }
 }
@@ -1066,6 +1087,10 @@ impl TryFrom<&mut Peekable<Lexer>> for ParserNode {
                             loop {
                                 #[cfg(riscv_analysis_verif)]
                                 crate::verif::tick("data-list");
+                                // the list ends with the file at the latest
+                                if lex.lexer.peek().is_none() {
+                                    break;
+                                }
                                 let next = lex.peek_any()?;
                                 if let TokenType::Newline = next.token_type() {
                                     // consume newline
@@ -1096,6 +1121,11 @@ impl TryFrom<&mut Peekable<Lexer>> for ParserNode {
                             loop {
                                 #[cfg(riscv_analysis_verif)]
                                 crate::verif::tick("macro-skip");
+                                // a macro that is never closed ends with
+                                // the file
+                                if lex.lexer.peek().is_none() {
+                                    break;
+                                }
                                 let next = lex.get_any()?;
                                 if let TokenType::Directive(dir2) = next.token_type() {
                                     if let Ok(new_dir) = DirectiveToken::from_str(dir2) {
